@@ -191,6 +191,49 @@ func c06(r *sim.R) *sim.Violation {
 		midAt = t.Draw(150)
 		nDmg = t.Draw(2)
 	}
+	// one run in five (of those without a mid-query fault): exactly one fault, confined to ONE block -
+	// the encoder type in its descriptor made unusable, or a bit / byte at the start of its stored
+	// bytes in one column. Then the other blocks of the same day are held to the model as well.
+	blockLocal, victimTS := false, int64(-1)
+	if vb := m.Ifaces[vIface][vDay].Blocks; midAt < 0 && t.Draw(5) == 0 && len(vb) > 0 {
+		blockLocal, nDmg = true, 0
+		k := t.Draw(len(vb))
+		if t.Bool() {
+			f := dir + "/.blockmeta"
+			b, ok := wd.fs.ReadRaw(tree, f)
+			pos := 72 + t.Draw(8)*(8+9*len(vb)) + 8 + 9*k + 8
+			if !ok || pos >= len(b) || b[pos] < 1 || b[pos] > 3 {
+				panic(simfs.HarnessError{Msg: fmt.Sprintf("metadata layout: no encoder type at offset %d of %s (%d blocks)", pos, f, len(vb))})
+			}
+			b[pos] = []byte{0, 4, 9, 0x80, 0xff}[t.Draw(5)]
+			wd.fs.WriteRaw(tree, f, b)
+			what = append(what, fmt.Sprintf(".blockmeta: encoder type of block %d of one column set to %#x", k, b[pos]))
+			r.Fault("stored-byte-damage:encoder-type")
+			victimTS = vb[k].TS
+		} else {
+			f := files[t.Draw(len(files))]
+			if ext := extents[f[strings.LastIndex(f, "/")+1:]]; !strings.HasSuffix(f, ".blockmeta") && k < len(ext) && ext[k][1] > 0 {
+				if b, ok := wd.fs.ReadRaw(tree, f); ok && ext[k][0] < len(b) {
+					pos := ext[k][0] + t.Draw(min(ext[k][1], 3))
+					if pos >= len(b) {
+						pos = ext[k][0]
+					}
+					if t.Bool() {
+						b[pos] ^= 1 << uint(t.Draw(8))
+					} else {
+						b[pos] ^= 0xff
+					}
+					wd.fs.WriteRaw(tree, f, b)
+					what = append(what, fmt.Sprintf("%s: byte %d of block %d altered", f[strings.LastIndex(f, "/")+1:], pos-ext[k][0], k))
+					r.Fault("stored-byte-damage:block-start")
+					victimTS = vb[k].TS
+				}
+			}
+		}
+		if victimTS < 0 {
+			blockLocal = false
+		}
+	}
 	for i := 0; i < nDmg; i++ {
 		damageOne()
 	}
@@ -206,6 +249,9 @@ func c06(r *sim.R) *sim.Violation {
 		}
 		if metaDamaged {
 			sig = "metadata damaged"
+		}
+		if blockLocal {
+			sig = "one block damaged (encoder type in its descriptor, or its first stored bytes)"
 		}
 	}
 	setSig()
@@ -339,6 +385,36 @@ func c06(r *sim.R) *sim.Violation {
 			if v := r.Report(&sim.Violation{Clause: "damage-not-contained", Signature: csig, Detail: fmt.Sprintf("%s\ndamage to %s/%d: %s\nrows of undamaged days differ: %s", describe(q), vIface, vDay, strings.Join(what, "; "), d)}); v != nil {
 				return v
 			}
+		}
+		// damage confined to one block: the other blocks of that day are exact as well
+		if blockLocal {
+			rest := model.NewStore()
+			for _, iface := range q.Ifaces {
+				for _, d := range m.Days(iface) {
+					for _, b := range m.Ifaces[iface][d].Blocks {
+						if !(iface == vIface && b.TS == victimTS) {
+							rest.Add(iface, b)
+						}
+					}
+				}
+			}
+			wantRest, _ := q.Eval(rest, false)
+			var gotRest []string
+			for _, row := range canonRows(q, res.Rows) {
+				parts := strings.SplitN(row, "|", 3)
+				var ts int64
+				fmt.Sscan(parts[0], &ts)
+				if !(parts[1] == vIface && ts == victimTS) {
+					gotRest = append(gotRest, row)
+				}
+			}
+			if d := dbcheck.DiffRows(wantRest, gotRest); d != "" {
+				if v := r.Report(&sim.Violation{Clause: "damage-not-contained", Signature: "one block damaged: other blocks of the same day differ",
+					Detail: fmt.Sprintf("%s (workers=%d lowmem=%v)\ndamage to %s/%d: %s\nrows of the other blocks (the damaged block is the one stamped %d): %s", describe(q), workers, lowMem, vIface, vDay, strings.Join(what, "; "), victimTS, d)}); v != nil {
+					return v
+				}
+			}
+			r.Probe("single_block_damage_checked")
 		}
 		// statistics: only judged when the metadata is intact (the reader knows the blocks)
 		if !metaDamaged && res.Summary.Stats != nil {
